@@ -286,20 +286,40 @@ func (m *model) effective(t *mTimer) bool {
 }
 
 // TimerSection applies the critical section of a fired retry callback of record
-// rec (the hook point identifies the record).
-func (m *model) TimerSection(rec *mRec) {
+// rec (the hook point identifies the record). A callback whose timer was stopped
+// after it had fired (Timer.Stop cannot recall it) must not have any effect: the
+// routine was restarted by something else in the meantime, and re-running it now
+// would be a run that neither RestartRoutine, SetContext(restart) nor an elapsed
+// back-off interval asked for. It reports whether the section belongs to a
+// stopped timer.
+func (m *model) TimerSection(rec *mRec) (stale bool) {
+	pick := -1
 	for i, t := range m.fired {
-		if t.rec == rec {
-			m.fired = append(m.fired[:i], m.fired[i+1:]...)
-			if rec.timer == t {
-				rec.timer = nil
-			}
+		if t.rec != rec {
+			continue
+		}
+		if !t.stopped {
+			pick = i
 			break
+		}
+		if pick < 0 {
+			pick = i
+		}
+	}
+	if pick >= 0 {
+		t := m.fired[pick]
+		m.fired = append(m.fired[:pick], m.fired[pick+1:]...)
+		if rec.timer == t {
+			rec.timer = nil
+		}
+		if t.stopped {
+			return true
 		}
 	}
 	if m.ctxID != 0 && rec.current && (rec.status == stFailed || rec.status == stSucceeded) {
 		m.start(rec, true)
 	}
+	return false
 }
 
 // returnable reports what WaitExited may return right now.
